@@ -22,3 +22,7 @@ func verifPanics(f func()) (p bool) {
 	f()
 	return false
 }
+
+// verifCall0 is the body of a goroutine started with `go f()` where f is a modelled function value
+// (e.g. a context.CancelFunc).
+func verifCall0(f func()) { f() }
